@@ -161,7 +161,13 @@ class Ctx:
                              {"property": self.pid, "kind": "trace", "module": module, "cfg": cfg, "env": env, "tlc_tail": r.out[-3000:]})
                 self.traces += n
                 return r
-            raise
+            if not (r.printed("VIOL") or r.printed("REJECT")):
+                raise
+            # TLC stopped on a record it could not evaluate (a field of another shape than the specification reads) after
+            # having rejected other traces of the same file: those verdicts stand; the traces it did not reach have none
+            partial = True
+        else:
+            partial = False
         self._account(r, label, "trace-validation")
         acc = {p[1] for p in r.printed("ACCEPT")}
         rej = r.printed("REJECT")
@@ -200,7 +206,7 @@ class Ctx:
         # total verdicts: every trace must have exactly one verdict
         verdicts = acc | bad_tids
         missing = [t for t in bytid if t not in verdicts]
-        if missing and not r.inv_violations:
+        if missing and not r.inv_violations and not partial:
             raise MachineryError(f"{label}: {len(missing)} traces without verdict, e.g. {missing[:3]}\n{r.out[-2000:]}")
         self.traces += n
         self.accepted += len(acc - bad_tids)
